@@ -23,7 +23,7 @@ class Incomplete(BerError):
 
 
 class Node:
-    __slots__ = ("cls", "constructed", "num", "content", "children", "lenform", "note")
+    __slots__ = ("cls", "constructed", "num", "content", "children", "lenform", "note", "rawlen", "rawident", "lendelta")
 
     def __init__(
         self,
@@ -42,9 +42,13 @@ class Node:
         self.children = children
         self.lenform = lenform
         self.note = note  # free annotation used by the LDAP layer (type name, role)
+        # fault injection (C05/C06): explicit identifier / length octets, or an offset added to the true length
+        self.rawlen: t.Optional[bytes] = None
+        self.rawident: t.Optional[bytes] = None
+        self.lendelta = 0
 
     def copy(self) -> "Node":
-        return Node(
+        n = Node(
             self.cls,
             self.constructed,
             self.num,
@@ -53,6 +57,8 @@ class Node:
             self.lenform,
             self.note,
         )
+        n.rawlen, n.rawident, n.lendelta = self.rawlen, self.rawident, self.lendelta
+        return n
 
     def walk(self) -> t.Iterator["Node"]:
         yield self
@@ -98,7 +104,12 @@ def encode(node: Node) -> bytes:
         body = b"".join(encode(c) for c in node.children)
     else:
         body = node.content or b""
-    return enc_ident(node.cls, node.constructed, node.num) + enc_len(len(body), node.lenform) + body
+    ident = node.rawident if node.rawident is not None else enc_ident(node.cls, node.constructed, node.num)
+    if node.rawlen is not None:
+        ln = node.rawlen
+    else:
+        ln = enc_len(max(0, len(body) + node.lendelta), node.lenform)
+    return ident + ln + body
 
 
 def read_header(data: bytes, pos: int, strict: bool) -> t.Tuple[int, bool, int, int, int]:
